@@ -6,13 +6,98 @@ from .zone import DBM, INF
 from .paths import BRANCH_TERMS
 
 
+class State:
+    """Zone plus a set of general linear facts  L <= 0  (each a frozenset of (var, coef) items; key 1 = constant) gathered
+    from branch conditions with const locals inlined.  The facts extend the zone to the few three-variable relations the
+    kernels need (i + il - iu + 2 <= 0); they are dropped as soon as one of their variables may change."""
+    __slots__ = ('d', 'facts')
+
+    def __init__(self, d, facts=frozenset()):
+        self.d = d
+        self.facts = facts
+
+    def copy(self):
+        return State(self.d.copy(), self.facts)
+
+    def join(self, o):
+        return State(self.d.join(o.d), self.facts & o.facts)
+
+    def widen(self, o):
+        return State(self.d.widen(o.d), self.facts & o.facts)
+
+    def leq(self, o):
+        return self.d.leq(o.d) and o.facts <= self.facts
+
+    def is_bot(self):
+        return self.d.is_bot()
+
+    # DBM-compatible queries used by the proof helpers
+    def entails(self, x, y, c):
+        return self.d.entails(x, y, c)
+
+    def get(self, x, y):
+        return self.d.get(x, y)
+
+    def close(self):
+        self.d.close()
+        return self
+
+    @property
+    def bot(self):
+        return self.d.bot
+
+
+def _cond_facts(fn, cond, truth, out):
+    """Linear facts L <= 0 implied by cond == truth (comparisons, && under truth, || under falsity)."""
+    n = fn.strip(cond)
+    if n is None:
+        return
+    k = n['k']
+    if k == 'UnaryOperator' and n.get('op') == '!':
+        _cond_facts(fn, fn.nodes[n['c'][0]], not truth, out)
+        return
+    if k == 'BinaryOperator' and n.get('op') in ('&&', '||'):
+        if (n['op'] == '&&') == truth:
+            _cond_facts(fn, fn.nodes[n['c'][0]], truth, out)
+            _cond_facts(fn, fn.nodes[n['c'][1]], truth, out)
+        return
+    if k == 'BinaryOperator' and n.get('op') in ('<', '<=', '>', '>=', '=='):
+        a, b = linform(fn, fn.nodes[n['c'][0]]), linform(fn, fn.nodes[n['c'][1]])
+        if a is None or b is None:
+            return
+        op = n['op']
+        if not truth:
+            if op == '==':
+                return
+            op = {'<': '>=', '<=': '>', '>': '<=', '>=': '<'}[op]
+        ab = lf_sub(a, b)
+        ba = lf_sub(b, a)
+
+        def add(L, c):
+            L = dict(L)
+            L[1] = L.get(1, 0) + c
+            if len([k_ for k_ in L if k_ != 1 and L[k_] != 0]) >= 3:      # two-variable facts are the zone's business
+                out.add(frozenset(L.items()))
+        if op == '<':
+            add(ab, 1)
+        elif op == '<=':
+            add(ab, 0)
+        elif op == '>':
+            add(ba, 1)
+        elif op == '>=':
+            add(ba, 0)
+        elif op == '==':
+            add(ab, 0)
+            add(ba, 0)
+
+
 def analyse(fn, entry):
-    """Returns {(block id, element index): DBM holding BEFORE that element} and {block id: DBM at block exit}."""
+    """Returns {(block id, element index): State holding BEFORE that element} and {block id: State at block exit}."""
+    if not isinstance(entry, State):
+        entry = State(entry)
     blocks = fn.cfg['blocks']
-    ids = [b['id'] for b in blocks]
     entry_id = fn.cfg['entry']
     preds = fn.preds()
-    # reverse post-order
     order = []
     seen = set()
 
@@ -44,42 +129,78 @@ def analyse(fn, entry):
     visits = {b: 0 for b in order}
 
     def edge(p, b):
-        """zone flowing along edge p -> b"""
         o = OUT.get(p)
         if o is None:
             return None
         blk = fn.blocks[p]
         cond = blk.get('termcond', -1)
-        d = o.copy()
+        st = o.copy()
         if blk.get('termk') in BRANCH_TERMS and cond is not None and cond >= 0 and len(blk['succs']) == 2:
             ss = blk['succs']
             idxs = [i for i, s in enumerate(ss) if s == b]
             if len(idxs) == 1:
-                zone.assume(fn, d, fn.nodes[cond], idxs[0] == 0)
-        if d.is_bot():
+                truth = idxs[0] == 0
+                zone.assume(fn, st.d, fn.nodes[cond], truth)
+                new = set()
+                _cond_facts(fn, fn.nodes[cond], truth, new)
+                if new:
+                    st.facts = st.facts | frozenset(new)
+        if st.is_bot():
             return None
-        return d
+        return st
 
-    def transfer(b, d, record=None):
-        d = d.copy()
+    def kill_facts(st, n):
+        if not st.facts:
+            return
+        kv = zone.killed_vars(fn, n)
+        if not kv:
+            return
+        fields_all = False
+        fields = set()
+        plain = set()
+        for v in kv:
+            if isinstance(v, tuple) and v[0] == 'fields':
+                if v[1] is None:
+                    fields_all = True
+                else:
+                    fields |= set(v[1])
+            else:
+                plain.add(v)
+        cf = zone.const_fields(fn)
+
+        def dead(f):
+            for (var, coef) in f:
+                if var == 1:
+                    continue
+                if var in plain:
+                    return True
+                if isinstance(var, tuple) and var[0] == 'f' and var[1] not in cf and (fields_all or var[1] in fields):
+                    return True
+                # a const local whose initialiser was inlined never appears; its operands do
+            return False
+        st.facts = frozenset(f for f in st.facts if not dead(f))
+
+    def transfer(b, st, record=None):
+        st = st.copy()
         for i, e in enumerate(fn.blocks[b]['elems']):
             if record is not None:
-                record[(b, i)] = d.copy()
+                record[(b, i)] = st.copy()
             if isinstance(e, int):
-                zone.step(fn, d, fn.nodes[e])
+                kill_facts(st, fn.nodes[e])
+                zone.step(fn, st.d, fn.nodes[e])
             elif isinstance(e, dict) and 'decl' in e:
-                d.forget(('v', e['decl']))
-        return d
+                st.d.forget(('v', e['decl']))
+        return st
 
     def compute_in(b):
         if b == entry_id:
             return entry.copy()
         acc = None
         for p in preds[b]:
-            d = edge(p, b)
-            if d is None:
+            st = edge(p, b)
+            if st is None:
                 continue
-            acc = d if acc is None else acc.join(d)
+            acc = st if acc is None else acc.join(st)
         return acc
 
     changed = True
@@ -104,7 +225,6 @@ def analyse(fn, entry):
                 changed = True
     if rounds >= 60:
         raise AnalysisBroken('zone analysis of %s did not stabilise' % fn.qname)
-    # narrowing: two descending passes without widening
     for _ in range(2):
         for b in order:
             ni = compute_in(b)
@@ -127,3 +247,195 @@ def prove_le(d, a, b, slack=0):
     """a, b linear forms (var, c): does a <= b + slack hold in zone d?"""
     (x, cx), (y, cy) = a, b
     return d.entails(x, y, cy - cx + slack)
+
+
+# ---------------------------------------------------------------------------------------------------
+# general linear forms  sum(coef * var) + const  and their proof obligations in a zone
+# ---------------------------------------------------------------------------------------------------
+def linform(fn, n):
+    """{var: coef, 1: const} for an integer expression built from + - and multiplication by a constant, else None."""
+    n = fn.strip(n)
+    if n is None:
+        return None
+    k = n['k']
+    if k == 'IntegerLiteral':
+        return {1: int(n['val'])}
+    v = zone.var_of(fn, n)
+    if v is not None:
+        # a const local is its initialiser (its operands cannot change while it is in scope within one loop iteration:
+        # loop counters advance only in the loop step, after every use)
+        if v[0] == 'v' and fn.locals[v[1]].get('const') and fn.locals[v[1]]['kind'] == 'var':
+            for x in fn.walk():
+                if x['k'] == 'DeclStmt':
+                    for d in x.get('decls', []):
+                        if d.get('var') == v[1] and 'init' in d:
+                            L = linform(fn, fn.nodes[d['init']])
+                            if L is not None:
+                                return L
+        return {v: 1, 1: 0}
+    if 'cval' in n:
+        try:
+            return {1: int(n['cval'])}
+        except ValueError:
+            return None
+    if k == 'BinaryOperator' and n.get('op') in ('+', '-'):
+        a, b = linform(fn, fn.nodes[n['c'][0]]), linform(fn, fn.nodes[n['c'][1]])
+        if a is None or b is None:
+            return None
+        sgn = 1 if n['op'] == '+' else -1
+        r = dict(a)
+        for kk, vv in b.items():
+            r[kk] = r.get(kk, 0) + sgn * vv
+        return {kk: vv for kk, vv in r.items() if vv != 0 or kk == 1}
+    if k == 'BinaryOperator' and n.get('op') == '*':
+        a, b = linform(fn, fn.nodes[n['c'][0]]), linform(fn, fn.nodes[n['c'][1]])
+        if a is None or b is None:
+            return None
+        for x, y in ((a, b), (b, a)):
+            if set(x) <= {1}:
+                c = x.get(1, 0)
+                return {kk: vv * c for kk, vv in y.items()}
+        return None
+    if k == 'UnaryOperator' and n.get('op') == '-':
+        a = linform(fn, fn.nodes[n['c'][0]])
+        return None if a is None else {kk: -vv for kk, vv in a.items()}
+    return None
+
+
+def lf_of_lin(lin):
+    v, c = lin
+    return {1: c} if v == 'Z' else {v: 1, 1: c}
+
+
+def lf_sub(a, b):
+    r = dict(a)
+    for k, v in b.items():
+        r[k] = r.get(k, 0) - v
+    return {k: v for k, v in r.items() if v != 0 or k == 1}
+
+
+def prove_nonpos(d, L):
+    """As _prove_zone, additionally using at most one general linear fact F <= 0 of the state:  L = F + (L - F)."""
+    if _prove_zone(d, L):
+        return True
+    for F in getattr(d, 'facts', ()):
+        Fd = dict(F)
+        if _prove_zone(d, lf_sub(L, Fd)):
+            return True
+    return False
+
+
+def _prove_zone(d, L):
+    """Does the linear form L <= 0 hold in every point of zone d?  L = sum(+x) - sum(y) + c with unit coefficients is bounded
+    by pairing every positive variable with a negative one (or with zero) and summing the zone's bounds on the differences:
+    sound (each pairing gives an upper bound of L), decided by the best pairing."""
+    import itertools
+    c = L.get(1, 0)
+    pos, neg = [], []
+    for k, v in L.items():
+        if k == 1 or v == 0:
+            continue
+        if v != int(v) or abs(v) > 3:
+            return False
+        (pos if v > 0 else neg).extend([k] * abs(int(v)))
+    if not pos and not neg:
+        return c <= 0
+    if len(pos) + len(neg) > 6:
+        return False
+    d.close()
+    if d.bot:
+        return True
+    m = max(len(pos), len(neg))
+    P = pos + ['Z'] * (m - len(pos))
+    N = neg + ['Z'] * (m - len(neg))
+    best = INF
+    for perm in set(itertools.permutations(N)):
+        tot = 0
+        for x, y in zip(P, perm):
+            b = 0 if x == y else d.get(x, y)
+            if b == INF:
+                tot = INF
+                break
+            tot += b
+        best = min(best, tot)
+    return best + c <= 0
+
+
+def upper_forms(fn, n):
+    """Linear forms U with expr <= U (for expressions with min / + / - of linear parts)."""
+    n = fn.strip(n)
+    L = linform(fn, n)
+    if L is not None:
+        return [L]
+    if n is None:
+        return []
+    if n['k'] == 'CallExpr' and n.get('callee') == 'min' and n.get('org') != 'S':
+        out = []
+        for a in fn.call_args(n):
+            out += upper_forms(fn, a)
+        return out
+    if n['k'] == 'BinaryOperator' and n.get('op') == '+':
+        out = []
+        for a in upper_forms(fn, fn.nodes[n['c'][0]]):
+            for b in upper_forms(fn, fn.nodes[n['c'][1]]):
+                r = dict(a)
+                for k, v in b.items():
+                    r[k] = r.get(k, 0) + v
+                out.append(r)
+        return out
+    if n['k'] == 'BinaryOperator' and n.get('op') == '-':
+        out = []
+        for a in upper_forms(fn, fn.nodes[n['c'][0]]):
+            for b in lower_forms(fn, fn.nodes[n['c'][1]]):
+                out.append(lf_sub(a, b))
+        return out
+    return []
+
+
+def lower_forms(fn, n):
+    """Linear forms L with expr >= L."""
+    n = fn.strip(n)
+    L = linform(fn, n)
+    if L is not None:
+        return [L]
+    if n is None:
+        return []
+    if n['k'] == 'CallExpr' and n.get('callee') == 'max' and n.get('org') != 'S':
+        out = []
+        for a in fn.call_args(n):
+            out += lower_forms(fn, a)
+        return out
+    if n['k'] == 'BinaryOperator' and n.get('op') == '+':
+        out = []
+        for a in lower_forms(fn, fn.nodes[n['c'][0]]):
+            for b in lower_forms(fn, fn.nodes[n['c'][1]]):
+                r = dict(a)
+                for k, v in b.items():
+                    r[k] = r.get(k, 0) + v
+                out.append(r)
+        return out
+    return []
+
+
+def nonneg(fn, z, n):
+    """expr >= 0 in zone z (min(a, b) >= 0 needs both)."""
+    n = fn.strip(n)
+    L = linform(fn, n)
+    if L is not None:
+        return prove_nonpos(z, {k: -v for k, v in L.items()})
+    if n is not None and n['k'] == 'CallExpr' and n.get('callee') == 'min' and n.get('org') != 'S':
+        return all(nonneg(fn, z, a) for a in fn.call_args(n))
+    if n is not None and n['k'] == 'BinaryOperator' and n.get('op') == '+':
+        return nonneg(fn, z, fn.nodes[n['c'][0]]) and nonneg(fn, z, fn.nodes[n['c'][1]])
+    return any(prove_nonpos(z, {k: -v for k, v in L2.items()}) for L2 in lower_forms(fn, n))
+
+
+def at_most(fn, z, n, ext, slack=0):
+    """expr <= ext + slack in zone z."""
+    for U in upper_forms(fn, n):
+        d = lf_sub(U, ext)
+        d = dict(d)
+        d[1] = d.get(1, 0) - slack
+        if prove_nonpos(z, d):
+            return True
+    return False
